@@ -76,3 +76,8 @@ package v2
 //@ jsonname v2.Element.IdempotencyKey "ik" // C07 C18
 //@ jsonname v2.Element.Action "action" // C07 C18
 //@ jsonname v2.Element.Data "data" // C07 C18
+
+// C10: the unforced / forced mode of a revert request reaches the engine as the request states it (contracts/extern/backend.contracts)
+//@ func v2.revertTransaction
+//@   requires r != nil
+//@   property C10
